@@ -663,10 +663,207 @@ def fam_withops(rnd, i):
     return steps
 
 
+def fam_repoint(rnd, i):
+    """A listed path comes to name a different file (symlink re-targeted, file replaced, directory
+    swapped) -- onto an unwatched file or onto one that is already watched under another name -- and is
+    added again; then activity on the old and the new file, WatchList, obs, Remove."""
+    w = "w1"
+    steps = [fs("create", ("a",)), fs("create", ("b",)), fs("mkdir", ("d1",)), fs("mkdir", ("d2",)),
+             fs("symlink", ("l",), tgt={"abs": rnd.random() < 0.5, "c": ["b"]}), new(w, rnd.choice([0, 0, 4]))]
+    shape = rnd.choice(["alias_symlink", "alias_symlink", "plain_symlink", "replace_file", "replace_keep_link", "replace_keep_fd", "swap_dir", "alias_hardlink"])
+    sp = rnd.choice(["rel", "abs", "dot"])
+    if shape == "alias_symlink":
+        steps += [call(w, "add", ("a",), sp), call(w, "add", ("l",), sp), drain(w),
+                  fs("unlink", ("l",)), fs("symlink", ("l",), tgt={"abs": False, "c": ["a"]}), call(w, "add", ("l",), sp)]
+        old, newp, P = ("b",), ("a",), ("l",)
+    elif shape == "plain_symlink":
+        steps += [call(w, "add", ("l",), sp), drain(w), fs("unlink", ("l",)), fs("symlink", ("l",), tgt={"abs": False, "c": ["a"]}),
+                  call(w, "add", ("l",), sp)]
+        old, newp, P = ("b",), ("a",), ("l",)
+    elif shape == "replace_file":
+        steps += [call(w, "add", ("a",), sp), fs("rename", ("a",), to=("a0",)), drain(w), fs("create", ("a",)), call(w, "add", ("a",), sp)]
+        old, newp, P = ("a0",), ("a",), ("a",)
+    elif shape == "replace_keep_link":
+        steps += [call(w, "add", ("a",), sp), fs("link", ("a",), to=("h",)), fs("unlink", ("a",)), fs("create", ("a",)), drain(w), call(w, "add", ("a",), sp)]
+        old, newp, P = ("h",), ("a",), ("a",)
+    elif shape == "replace_keep_fd":
+        steps += [call(w, "add", ("a",), sp), fs("open", ("a",), fd="f1"), fs("unlink", ("a",)), fs("create", ("a",)), drain(w), call(w, "add", ("a",), sp)]
+        old, newp, P = None, ("a",), ("a",)
+    elif shape == "swap_dir":
+        steps += [fs("symlink", ("ld",), tgt={"abs": False, "c": ["d1"]}), call(w, "add", ("ld",), sp), drain(w), fs("unlink", ("ld",)),
+                  fs("symlink", ("ld",), tgt={"abs": False, "c": ["d2"]}), call(w, "add", ("ld",), sp)]
+        old, newp, P = ("d1", "n1"), ("d2", "n1"), ("ld",)
+    else:
+        steps += [fs("link", ("a",), to=("h",)), call(w, "add", ("a",), sp), call(w, "add", ("l",), sp), drain(w),
+                  fs("unlink", ("l",)), fs("symlink", ("l",), tgt={"abs": False, "c": ["h"]}), call(w, "add", ("l",), sp)]
+        old, newp, P = ("b",), ("h",), ("l",)
+    steps += [drain(w), call(w, "watchlist"), obs(w)]
+    if shape == "swap_dir":
+        steps += [fs("create", old), fs("create", newp)]
+    else:
+        if old:
+            steps.append(fs("chmod", old))
+        steps.append(fs("chmod", newp))
+        if shape == "replace_keep_fd":
+            steps.append(fs("fdwrite", (), fd="f1"))
+    steps += [drain(w), call(w, "watchlist"), obs(w)]
+    if shape == "replace_keep_fd":
+        steps += [fs("closefd", (), fd="f1"), drain(w), obs(w)]
+    if shape == "replace_keep_link":
+        steps += [fs("unlink", ("h",)), drain(w), obs(w)]
+    order = rnd.choice([0, 1])
+    rm = [call(w, "remove", P, sp), drain(w), call(w, "watchlist"), obs(w)]
+    if order == 0:
+        steps += rm
+    steps += [fs("chmod", newp) if shape != "swap_dir" else fs("create", ("d2", "n2")), drain(w)]
+    if order == 1:
+        steps += rm
+    steps += [call(w, "close"), drain(w), obs(w)]
+    return steps
+
+
+def fam_stall(rnd, i):
+    """Consumer behaviours: events and/or nothing are received while bursts larger than the buffer are
+    pending; every control call must come back regardless."""
+    w = "w1"
+    cap = rnd.choice([0, 1, 2, 8])
+    steps = [fs("mkdir", ("d1",)), fs("create", ("d1", "n1")), new(w, cap), call(w, "add", ("d1",), rnd.choice(SPELLINGS), rnd)]
+    steps.append({"s": "rep", "k": cap + rnd.choice([1, 2, 10, 100]), "pat": [fs("create", ("d1", "x%"))]})
+    beh = rnd.choice(["none", "some", "mid"])
+    if beh == "some":
+        for _ in range(rnd.randint(1, 3)):
+            steps.append(recv(w))
+    elif beh == "mid":
+        for _ in range(cap + 1):
+            steps.append(recv(w))
+        steps.append(recv(w, "err"))
+    steps.append(obs(w))
+    for c in rnd.sample(["watchlist", "add", "remove", "add2"], rnd.randint(2, 4)):
+        if c == "watchlist":
+            steps.append(call(w, "watchlist"))
+        elif c == "add":
+            steps.append(call(w, "add", ("d1", "n1"), "rel"))
+        elif c == "add2":
+            steps.append(call(w, "add", ("d1",), "abs"))
+        else:
+            steps.append(call(w, "remove", ("d1", "n1"), "rel"))
+    mode = rnd.choice(["close", "close2", "drain_close"])
+    if mode == "drain_close":
+        steps.append(drain(w))
+    steps.append(call(w, "close"))
+    if mode == "close2":
+        steps.append(call(w, "close"))
+    steps += [drain(w), obs(w)]
+    return steps
+
+
+def fam_spell(rnd, i):
+    """Every spelling of the Add argument (absolute, relative, ./, //, x/../x, trailing slash, through
+    absolute and relative symlinks to a file and to a directory) crossed with the name-shape tables;
+    then operations on the watched path and on directory entries."""
+    w = "w1"
+    steps = [fs("mkdir", ("d1",)), fs("mkdir", ("d1", "s1")), fs("create", ("d1", "n1")), fs("create", ("f1",)),
+             fs("symlink", ("lf",), tgt={"abs": rnd.random() < 0.5, "c": ["f1"]}),
+             fs("symlink", ("ld",), tgt={"abs": rnd.random() < 0.5, "c": ["d1"]}),
+             fs("symlink", ("d1", "ls"), tgt={"abs": False, "c": ["s1"]}),
+             new(w, rnd.choice([0, 0, 3]))]
+    targets = [("d1",), ("d1", "s1"), ("f1",), ("lf",), ("ld",), ("d1", "ls"), ("d1", "n1"), ()]
+    chosen = rnd.sample(targets, rnd.randint(1, 3))
+    for t in chosen:
+        sp = rnd.choice(SPELLINGS)
+        steps.append(call(w, "add", t, sp, rnd))
+    # second Add of the same files under other spellings: the first one wins
+    if rnd.random() < 0.5:
+        t = rnd.choice(chosen)
+        steps.append(call(w, "add", t, rnd.choice(SPELLINGS), rnd))
+    ops = [fs("create", ("d1", "n2")), fs("write", ("d1", "n1")), fs("chmod", ("d1", "n1")), fs("chmod", ("f1",)), fs("write", ("f1",)),
+           fs("create", ("d1", "s1", "n1")), fs("rename", ("d1", "n2"), to=("d1", "n3")), fs("create", ("n4",)), fs("unlink", ("n4",)),
+           fs("mkdir", ("d1", "s2")), fs("rmdir", ("d1", "s2")), fs("chmod", ("d1",)), fs("chmod", ("d1", "s1")),
+           fs("create", ("d1", "s1", "n2")), fs("unlink", ("d1", "s1", "n2")), fs("rename", ("d1", "n3"), to=("n5",)), fs("trunc", ("f1",))]
+    k = rnd.randint(4, len(ops))
+    pend = rnd.random() < 0.5
+    for st in ops[:k]:
+        steps.append(st)
+        if not pend:
+            steps.append(drain(w))
+    steps += epilogue(w, close=False)
+    return steps
+
+
+def fam_endwatch(rnd, i):
+    """Histories that delete, rename, overwrite-by-rename or recreate watched files and directories
+    (alone, with their watched parent, through symlinks, with descriptors held open, with a second hard
+    link), each followed by obs, Remove, further operations on the old and the new file, and re-Add."""
+    w = "w1"
+    steps = [fs("mkdir", ("d1",)), fs("create", ("d1", "n1")), fs("create", ("d1", "n2")), fs("mkdir", ("d1", "s1")),
+             fs("symlink", ("lf",), tgt={"abs": False, "c": ["d1", "n1"]}), new(w, rnd.choice([0, 0, 2, 16]))]
+    isdir = rnd.random() < 0.3
+    tgt = ("d1", "s1") if isdir else ("d1", "n1")
+    via = ("lf",) if (not isdir and rnd.random() < 0.25) else tgt
+    sp = rnd.choice(SPELLINGS)
+    steps.append(call(w, "add", via, sp, rnd))
+    parent = rnd.random() < 0.5
+    if parent:
+        steps.append(call(w, "add", ("d1",), rnd.choice(SPELLINGS), rnd))
+    held = link = False
+    if not isdir and rnd.random() < 0.3:
+        steps.append(fs("open", tgt, fd="f1"))
+        held = True
+    if not isdir and rnd.random() < 0.25:
+        steps.append(fs("link", tgt, to=("d1", "h1")))
+        link = True
+    how = rnd.choice(["delete", "rename", "overwrite", "rename_out", "delete_parent"] if not isdir else ["delete", "rename", "rename_out"])
+    pace = rnd.choice(["drain", "drain", "lag"])
+    moved = None
+    if how == "delete":
+        steps.append(fs("rmdir" if isdir else "unlink", tgt))
+    elif how == "rename":
+        moved = ("d1", "m1")
+        steps.append(fs("rename", tgt, to=moved))
+    elif how == "rename_out":
+        moved = ("m2",)
+        steps.append(fs("rename", tgt, to=moved))
+    elif how == "overwrite":
+        steps.append(fs("rename", ("d1", "n2"), to=tgt))
+    elif how == "delete_parent":
+        steps += [fs("rmrf", ("d1",))]
+    if pace == "drain":
+        steps.append(drain(w))
+    steps += [call(w, "watchlist"), obs(w)]
+    if held:
+        steps += [fs("fdwrite", (), fd="f1"), fs("closefd", (), fd="f1")]
+        if pace == "drain":
+            steps.append(drain(w))
+    if link and how != "delete_parent":
+        steps += [fs("chmod", ("d1", "h1")), fs("unlink", ("d1", "h1"))]
+        if pace == "drain":
+            steps.append(drain(w))
+    if rnd.random() < 0.5:
+        steps.append(call(w, "remove", via, sp, rnd))
+    # further operations on the moved file and on a new file under the old name
+    if moved:
+        steps.append(fs("chmod", moved))
+    if how != "delete_parent":
+        if how != "overwrite":
+            steps.append(fs("mkdir" if isdir else "create", tgt))
+        steps.append(fs("chmod", tgt))
+        if pace == "drain":
+            steps.append(drain(w))
+        steps += [call(w, "watchlist"), call(w, "add", via, sp, rnd), fs("chmod", tgt)]
+        if isdir:
+            steps += [fs("create", tgt + ("n9",))]
+        else:
+            steps += [fs("write", tgt)]
+    steps += [drain(w), call(w, "watchlist"), obs(w), call(w, "remove", via, sp, rnd), drain(w), call(w, "watchlist"), obs(w),
+              call(w, "close"), drain(w), obs(w)]
+    return steps
+
+
 FAMS = {
     "rand": fam_rand, "burst": fam_burst, "lag": fam_lag, "close": fam_close, "wsrand": fam_watchset_random,
     "cycle": fam_cycle, "newclose": fam_newclose, "overflow": fam_overflow, "moves": fam_moves, "multi": fam_multi,
-    "absorb": fam_absorb, "withops": fam_withops,
+    "absorb": fam_absorb, "withops": fam_withops, "repoint": fam_repoint, "stall": fam_stall, "spell": fam_spell,
+    "endwatch": fam_endwatch,
 }
 
 
@@ -690,7 +887,8 @@ def main():
                               "steps": steps}, separators=(",", ":")) + "\n")
 
     if a.fam == "wsexh":
-        for idx, steps in enumerate(watchset_exhaustive(a.k, rnd, a.sample)):
+        k = int(params.get("k", a.k))
+        for idx, steps in enumerate(watchset_exhaustive(k, rnd, a.sample if a.sample is not None else a.n)):
             emit(idx, steps)
         return
     fn = FAMS[a.fam]
@@ -704,6 +902,8 @@ def main():
             kw["ks"] = tuple(int(x) for x in params["ks"].split("+"))
         if a.fam == "rand" and "maxops" in params:
             kw["maxops"] = int(params["maxops"])
+        if a.fam == "moves" and "depth" in params:
+            kw["depth"] = int(params["depth"])
         emit(idx, fn(rnd, idx, **kw))
 
 
